@@ -156,9 +156,14 @@ func getNamedStructDecoder(t reflect.Type) ValueDecoder {
 }
 
 func newNamedStructDecoder(t reflect.Type, tag ...string) *structDecoder {
+	return buildNamedStructDecoder(t, false, tag...)
+}
+
+// buildNamedStructDecoder: see buildNamedStructEncoder.
+func buildNamedStructDecoder(t reflect.Type, registered bool, tag ...string) *structDecoder {
 	t2 := reflect2.Type2(t).(*reflect2.UnsafeStructType)
 	decoder := &structDecoder{t: t2}
-	if existing, ok := getNamedStructDecoder(t).(*structDecoder); ok && existing != nil && len(tag) > 0 {
+	if existing, ok := getNamedStructDecoder(t).(*structDecoder); ok && existing != nil && registered {
 		// see newNamedStructEncoder: the decoders of the structs that contain the type hold
 		// the decoder it has already
 		decoder = existing
@@ -188,6 +193,11 @@ func newAnonymousStructDecoder(t reflect.Type, tag ...string) *structDecoder {
 func getStructDecoder(t reflect.Type) ValueDecoder {
 	if t.Name() == "" {
 		return newAnonymousStructDecoder(t)
+	}
+	if existing := getNamedStructDecoder(t); existing != nil {
+		// the one decoder of the type (a registration updates it in place): a second one
+		// would be out of date with the next registration
+		return existing
 	}
 	return newNamedStructDecoder(t)
 }
